@@ -30,7 +30,7 @@ def run(ctx):
     lib_sweep.sweep_conditions(ctx, P, tus=["trees"])
     funcs = set(lib_stats.VALIDATORS)
     seen = lib_guards.analyse(ctx, P, funcs=funcs)
-    lib_guards.presence(ctx, seen, funcs=funcs)
+    lib_guards.presence(ctx, seen, funcs=funcs, P=P)
     lib_py.kw_forward(ctx, py, mods=("trees", "stats"), only=ps)
     lib_py.unused_params(ctx, py, mods=("trees", "stats"), only=ps)
     lib_py.ll_positional(ctx, py, P, only=ps)
